@@ -126,6 +126,29 @@ def complement_removal(prog: Program, rep, RID: str):
                       "and is dropped, so it no longer has to be generated (too small a generating set is returned)", f.loc(hit))
 
 
+def start_not_empty(prog: Program, rep, RID: str):
+    """The caller's lower bound is the first k tried.  0 is a correct lower bound of every instance, but the k = 0 model has no variable:
+    HiGHS answers kModelEmpty, which is neither optimal nor infeasible, and the search gives up.  The start is clamped to 1 (or the
+    constructor rejects a bound below 1)."""
+    f = prog.own_method("MinGenSet", "solve")
+    init = prog.own_method("MinGenSet", "__init__")
+    key = "MinGenSet.solve:start-at-least-1"
+    loops = [lp for lp in ast.walk(f.node) if isinstance(lp, ast.For) and isinstance(lp.iter, ast.Call) and dotted(lp.iter.func) == "range" and
+             any("self.lowerbound" in norm(a) for a in lp.iter.args)]
+    if not loops:
+        raise AnalysisError("MinGenSet.solve: the search loop over k was not found")
+    lo = loops[0].iter.args[0]
+    clamped = isinstance(lo, ast.Call) and dotted(lo.func) == "max" and any(isinstance(a, ast.Constant) and isinstance(a.value, int) and a.value >= 1 for a in lo.args)
+    validated = any(isinstance(i, ast.If) and "lowerbound" in norm(i.test) and any(isinstance(x, ast.Raise) for x in ast.walk(i)) and
+                    any(isinstance(c, ast.Compare) and isinstance(c.ops[0], (ast.Lt, ast.LtE)) for c in ast.walk(i.test)) for i in ast.walk(init.node))
+    normalised = any(isinstance(st, ast.Assign) and norm(st.targets[0]) == "self.lowerbound" and "max(" in norm(st.value) for st in ast.walk(init.node))
+    if clamped or validated or normalised:
+        rep.ok(RID, key, f"the first k tried is at least 1 (`{norm(lo)}`)" if clamped else "the constructor brings the lower bound to at least 1", f.loc(loops[0]))
+    else:
+        rep.violation(RID, key, f"the search starts at `{norm(lo)}` as the caller gave it: for lowerbound=0 (a correct lower bound of every instance) the k = 0 model is empty, "
+                      "HiGHS reports kModelEmpty, solve() takes that for an inconclusive status and returns False without trying k = 1", f.loc(loops[0]))
+
+
 def check(prog: Program, rep):
     rep.rule("C15.R1", "formulations conform to the frozen table; helper preconditions", floor=20)
     conformance(prog, rep, "C15.R1", "C15")
@@ -134,6 +157,7 @@ def check(prog: Program, rep):
     helpers_exact(prog, rep, "C15.R1")
     rep.rule("C15.R2", "search protocol of MinGenSet.solve", floor=4)
     k_loop_protocol(prog, rep, "C15.R2", "MinGenSet", "solve", {"self.lowerbound"})
+    start_not_empty(prog, rep, "C15.R2")
     rep.rule("C15.R3", "k-range reaches len(numbers)+1", floor=1)
     range_rule(prog, rep, "C15.R3", "MinGenSet", "solve")
     rep.rule("C15.R4", "None-default parameters", floor=1)
